@@ -122,6 +122,22 @@ CLAIMED["C13"] = dict(
          "SLHAea's tokeniser (comments, whitespace, order of blocks).",
     ref="3 C13, Appendix B")
 
+CLAIMED["C05"] = dict(
+    category="other",
+    technique="structural path rules (flag xor unflag), transitive field-write analysis, stale-value typestate "
+              "for derived indices, polynomial identity for the closed-form inverse, who-may-read rule for "
+              "default constants",
+    text="Decides the 'or warns' half and the shape of the fitting routines: exactly one of flag/unflag "
+         "non-convergence on every path, selected by precision > goal; the warning flags cannot be overwritten "
+         "after the fits inside convert_to_onshell; a non-finite fit result restores the saved parameter; the "
+         "bino / right-smuon indices are re-derived after each recomputation of their mixing matrix before use; "
+         "ml2(2,2) from the sneutrino pole mass is the exact algebraic inverse of the tree-level relation; the "
+         "default SM constants are never read outside constructors. A slip in any of these yields a silently "
+         "wrong fit only on rare inputs (level crossings, stalled iterations, MZ different from the default).",
+    note=TRUST + "Not decided: that the fitted spectrum numerically reproduces the pole masses within the goal, "
+         "and parameter recovery from perturbed guesses (conditioning).",
+    ref="3 C05")
+
 NOT_APPLICABLE = {
     "C03": "numerical agreement of one-loop results with an independent higher-precision evaluation over all "
            "parameter points: depends on eigen-decomposition values; no code-shape clause of its own "
